@@ -8,6 +8,8 @@ from . import leaf
 
 WITNESSES = ["W01a", "W01b"]
 
+CRATES = (EY,)
+
 META = {
     "explanation": (
         "Static decision of the version / observed-version protocol on MIR (all paths, both lock flavours): R01.1 every function "
@@ -420,7 +422,7 @@ def r01_6(ctx, init):
             else:
                 n += 1
                 ctx.undecided("R01.6", f, "other-writer", b.line_at(loc), "unlisted writer of observed_version: %s" % fmt(e, 4))
-    ctx.floor("R01.6", n, 9 if ctx.config == "default" else 14)
+    ctx.floor("R01.6", n, 9 if not ctx.has_async else 14)
 
 
 def r01_7(ctx, init):
@@ -456,7 +458,7 @@ def r01_7(ctx, init):
                     ctx.violated("R01.7", root, "initial-version", where, "`%s` passes constant `%s` as the observed version: a fresh subscriber reports an update that never happened" % (root.name, fmt(e)))
                 else:
                     ctx.undecided("R01.7", root, "initial-version", where, "provenance of initial version not recognised: %s" % fmt(e, 4))
-    ctx.floor("R01.7", n, 4 if ctx.config == "default" else 8)
+    ctx.floor("R01.7", n, 4 if not ctx.has_async else 8)
 
 
 SETTERS = ("set", "set_if_not_eq", "set_if_hash_not_eq", "update", "update_if")
@@ -512,7 +514,7 @@ def r01_8(ctx):
                 ok = False
                 why = "the wrapper does not return the state method's result (returns `%s`)" % fmt(r, 4)
         ctx.verdict(ok, "R01.8", f, "pass-through", b.line_at((blk, 10 ** 6)), "calls ObservableState::%s once with its own arguments and returns the result" % base, why)
-    ctx.floor("R01.8", n, 18 if ctx.config == "default" else 30)
+    ctx.floor("R01.8", n, 18 if not ctx.has_async else 30)
 
 
 MUT_TRAITS = ("std::ops::DerefMut", "std::convert::AsMut", "std::borrow::BorrowMut", "std::ops::IndexMut")
@@ -631,4 +633,4 @@ def r01_12(ctx):
                          "`%s` hands out the value through `%s`, which takes a fresh lock and does not mark the value as observed: a write that lands between the poll and this read is handed out now and reported again by the next poll" % (f.path, c.name))
         else:
             ctx.holds("R01.12", f, "hands-out-through-marking-path", f.loc(), "no call of the non-marking readers get/read")
-    ctx.floor("R01.12", n, 2 if ctx.config == "default" else 4)
+    ctx.floor("R01.12", n, 2 if not ctx.has_async else 4)
